@@ -1,6 +1,8 @@
 import QV.Model.Compiler
 import QV.Proofs.Circuit
-import QV.Proofs.CompilerClean
+-- PORT-PENDING import QV.Proofs.CompilerClean   (not yet ported to the repaired compiler model, docs/notes/PORT-PENDING.md)
+import QV.Model.CompilerClass
+import QV.Proofs.Bennett
 /-!
 # C06 – Predicates compile to xor-oracles: |x>|y> -> |x>|y xor f(x)>
 
@@ -11,6 +13,9 @@ the inputs unchanged and returns scratch qubits to zero.
 `xor_oracle_of_clean` is universal (all X/CX/MCX circuits, all f): a circuit that is correct
 and clean from `y = 0` and never uses the output qubit as a control is an xor-oracle for both
 values of `y`.  `validateXor_sound`: the per-instance validator is sound for all `(x, y)`.
+The semantic theorem `C06_fragment_partial` (proved for the model of the unrepaired compiler) is
+parked in a `PORT-PENDING` block until `QV/Proofs/CompilerClean.lean` / `CompilerSem.lean` are
+ported to the repaired compiler model (`docs/notes/PORT-PENDING.md`).
 -/
 namespace QV.C06
 open QV QV.Compiler
@@ -124,6 +129,7 @@ theorem ext_getD {a b : List Bool} (hl : a.length = b.length) (h : ∀ i, a.getD
   have := h i
   simpa [List.getD_eq_getElem?_getD, List.getElem?_eq_getElem h1, List.getElem?_eq_getElem h2] using this
 
+/- PORT-PENDING theorem C06_fragment_partial (needs QV.Proofs.CompilerClean (compile_single_clean) and QV.Proofs.CompilerSem (compile_single_sem); text unchanged)
 /-- **C06 on the tree-like single-definition fragment without De Morgan `Or`** (`inXorFragment`:
 `inCleanFragment`, and the defined name is a return name `_ret…` or the expression is compound, so the
 output qubit is not an argument qubit), with `uncompute = true`: for every successful run of the
@@ -172,6 +178,7 @@ theorem C06_fragment_partial (inputs : List String) (defs : List (String × BExp
         simp [List.getD_eq_getElem?_getD, hl, evalDefs, envOf]
       · rw [hcl i hi]
         simp [List.getD_eq_getElem?_getD, Ne.symm hi]
+PORT-PENDING end -/
 
 /-- an instance of the class of `C06_fragment_partial` -/
 example : inXorFragment ["a", "b", "c"]
